@@ -209,3 +209,6 @@ func H07() {
 }
 
 type bigInt = big.Int
+
+func h08Bits(f float32) uint32 { return math.Float32bits(f) }
+func h08Log2(x float64) float64 { return math.Log2(x) }
